@@ -49,6 +49,16 @@ type replayOutcome struct {
 	expectMsg     string
 	native        nativeResult
 	verdict       string // confirmed | not-reproduced | ok | mismatch
+	engineOnly    bool
+}
+
+func usesFault(ds []interp.Draw) bool {
+	for _, d := range ds {
+		if strings.HasPrefix(d.Tag, "fault:") && d.Int != 0 {
+			return true
+		}
+	}
+	return false
 }
 
 // runNative runs cases of one package against the native build through go test -overlay.
@@ -161,6 +171,14 @@ func doReplays(prop string, results []*harnessResult, tier string) bool {
 			eo := "assert"
 			if v.Kind == "panic" {
 				eo = "panic"
+			}
+			if usesFault(v.Draws) {
+				// an injected file-system fault cannot be reproduced against the native build (no
+				// hook in /repo): the counterexample is the engine's own concrete re-execution
+				// against its file model, and is labelled as such
+				r.replays = append(r.replays, replayOutcome{kind: "violation", key: v.Msg, path: path, expectOutcome: eo, expectMsg: v.Msg, verdict: "confirmed", engineOnly: true})
+				fmt.Printf("  note: counterexample of %s needs an injected file-system fault; confirmed against the engine's file model only (no native replay)\n", r.spec.Name)
+				continue
 			}
 			r.replays = append(r.replays, replayOutcome{kind: "violation", key: v.Msg, path: path, expectOutcome: eo, expectMsg: v.Msg})
 			byPkg[r.spec.Pkg] = append(byPkg[r.spec.Pkg], c)
